@@ -148,6 +148,37 @@ impl Prop for C01 {
                     }
                 }
             }
+            // the same bytes delivered in short reads: 1 byte at a time for every string, 2 and 3 at a time when a
+            // multi-byte character could be split differently; and a reader that fails half-way must give an error
+            let chunks: &[usize] = if s.is_ascii() { &[1] } else { &[1, 2, 3] };
+            for k in chunks {
+                match Deb822::read_relaxed(crate::strings::ChunkReader::new(s.as_bytes(), *k)) {
+                    Ok((d5, e5)) => {
+                        if d5.to_string() != s || e5 != errs {
+                            out.push(viol("read-relaxed-agrees", format!("{}-byte reads: printed {:?} errors {:?}", k, d5.to_string(), e5)));
+                        }
+                    }
+                    Err(e) => out.push(viol("read-relaxed-agrees", format!("{}-byte reads: io error {}", k, e))),
+                }
+                match Deb822::read(crate::strings::ChunkReader::new(s.as_bytes(), *k)) {
+                    Ok(d6) => {
+                        if !strict.is_ok() || d6.to_string() != s {
+                            out.push(viol("read-agrees", format!("{}-byte reads: read ok printing {:?}, strict ok={}", k, d6.to_string(), strict.is_ok())));
+                        }
+                    }
+                    Err(_) => {
+                        if strict.is_ok() {
+                            out.push(viol("read-agrees", format!("{}-byte reads: read failed, strict ok", k)));
+                        }
+                    }
+                }
+            }
+            if !s.is_empty() {
+                let half = s.len() / 2;
+                if Deb822::read_relaxed(crate::strings::ChunkReader::failing(s.as_bytes(), 2, half)).is_ok() || Deb822::read(crate::strings::ChunkReader::failing(s.as_bytes(), 2, half)).is_ok() {
+                    out.push(viol("read-agrees", format!("a reader failing after {} bytes yields a document", half)));
+                }
+            }
             // token partition
             let toks = deb822_lossless::verif::lex(s);
             let cat: String = toks.iter().map(|(_, t)| t.as_str()).collect();
